@@ -507,6 +507,9 @@ func run(c *common.Ctx) *common.Result {
 	// a fresh environment that does not start in the initial state.  The
 	// parallel search relies on that independence (histories run concurrently),
 	// so it is skipped when the pre-pass finds a leak.
+	if !c.Worker || c.Shard == 0 {
+		typeRebind(res)
+	}
 	if prepass(res, violCases) {
 		res.Cap("environments of one process are not isolated (see the isolation/... violation): the parallel search was skipped")
 		return res
